@@ -131,6 +131,22 @@ def slow_scenarios(rng):
     return out
 
 
+def far_scenarios(seed):
+    """runs far from the origin with steps that are tiny relative to |t| (|t| ~ 1e5 .. 1e6, dt ~ 1e-3): a fixed fraction of the step is
+    then below the spacing of the floats at the root; a crossing inside a step must still be reported, forward and backward, several scales"""
+    import random as _random
+    r = _random.Random(seed * 13 + 8)
+    out = []
+    omega = 40.0
+    for t0 in (1.0e6, -1.0e6, 3.0e5, -2.0e6):
+        for d in (1.0, -1.0):
+            ph = r.uniform(0.4, 1.7)
+            c = math.cos(ph)
+            evs = [eventsim.make_event("y0", c, s_ * r.choice([1, -1]), 0, False) for s_ in (1.0, 1e3, 1e-3)]
+            out.append((dict(method=r.choice(["RK4Solver", "RK45CKSolver"]), t0=t0, tf=t0 + d * 0.05, dt=1e-3, dense=r.random() < 0.5, omega=omega), evs))
+    return out
+
+
 def boundary_stop_scenarios(rng):
     """every C09 run: a terminal event whose root lies exactly on a step end (fixed step on a dyadic grid), forward and backward,
     alone and after a non-terminal event on an earlier grid point, with and without dense output"""
@@ -356,6 +372,11 @@ def run_focus(ctx, focus, n_quick, n_thorough):
         sc, evs = fixed[i] if i < len(fixed) else gen_scenario(rng, focus)
         ode, spy, exc = eventsim.run_case(method_class(sc["method"]), sc["t0"], sc["tf"], sc["dt"], evs, sc["dense"], omega=sc.get("omega", 1.0))
         analyse(ctx, sc, evs, ode, spy, exc, focus, lines, pending)
+    if focus in ("C08", "all"):
+        for sc, evs in far_scenarios(ctx.seed):       # own random stream
+            ode, spy, exc = eventsim.run_case(method_class(sc["method"]), sc["t0"], sc["tf"], sc["dt"], evs, sc["dense"], omega=sc.get("omega", 1.0))
+            analyse(ctx, sc, evs, ode, spy, exc, focus, lines, pending)
+            ctx.count("family:far-from-origin")
     outs = ctx.driver(lines)
     for (kind, inp, data), o in zip(pending, outs):
         if kind == "select":
